@@ -2309,6 +2309,24 @@ static void DecodeFPO2(Word Code) {
     AddPrefixes();
 }
 
+static void DecodeBRKEM(Word Code) {
+    UNUSED(Code);
+
+    /* 8080 emulation mode exists on the V20/V30 only, not on the V25/V35 */
+
+    if (ChkArgCnt(1, 1) && ChkExactCPU(CPUV30)) {
+        Boolean OK;
+
+        BAsmCode[CodeLen + 2] = EvalStrIntExpression(&ArgStr[1], Int8, &OK);
+        if (OK) {
+            BAsmCode[CodeLen]     = 0x0f;
+            BAsmCode[CodeLen + 1] = 0xff;
+            CodeLen += 3;
+        }
+    }
+    AddPrefixes();
+}
+
 static void DecodeBTCLR(Word Code) {
     UNUSED(Code);
 
@@ -2485,6 +2503,7 @@ static void InitFields(void) {
     AddInstTable(InstTable, "INS", 0x31, DecodeINS_EXT);
     AddInstTable(InstTable, "EXT", 0x33, DecodeINS_EXT);
     AddInstTable(InstTable, "FPO2", 0, DecodeFPO2);
+    AddInstTable(InstTable, "BRKEM", 0, DecodeBRKEM);
     AddInstTable(InstTable, "BTCLR", 0, DecodeBTCLR);
     AddFPU("FLD", 0, DecodeFLD);
     AddFPU("FILD", 0, DecodeFILD);
